@@ -53,16 +53,39 @@ func (p *Prog) retirePrimitives() (push, pop map[*ssa.Function]bool) {
 	return
 }
 
-// retireCapable: functions that may (transitively) push to a free list.
+// retireCapable: functions that may (transitively) push to a free list (retire a table).
+var retireCapableMemo map[*ssa.Function]bool
+
 func (p *Prog) retireCapable() map[*ssa.Function]bool {
+	if retireCapableMemo != nil {
+		return retireCapableMemo
+	}
+	push, _ := p.retirePrimitives()
 	out := map[*ssa.Function]bool{}
-	for _, fn := range p.Funcs {
-		for _, pa := range p.Mod(fn).Paths() {
-			if strings.HasSuffix(pa, "freeIndices") {
-				out[fn] = true
+	for f := range push {
+		out[f] = true
+	}
+	for changed := true; changed; {
+		changed = false
+		for _, fn := range p.Funcs {
+			if out[fn] {
+				continue
+			}
+			for _, site := range callsIn(fn) {
+				callees, boundary := p.Callees(site)
+				if boundary {
+					continue
+				}
+				for _, c := range callees {
+					if out[c] {
+						out[fn] = true
+						changed = true
+					}
+				}
 			}
 		}
 	}
+	retireCapableMemo = out
 	return out
 }
 
